@@ -29,6 +29,25 @@ enum Step {
 	HeaderBatch(Vec<usize>),
 }
 
+impl Step {
+	fn to_json(&self) -> serde_json::Value {
+		match self {
+			Step::Block(i) => json!({"b": i}),
+			Step::Header(i) => json!({"h": i}),
+			Step::HeaderBatch(v) => json!({"hb": v}),
+		}
+	}
+	fn from_json(v: &serde_json::Value) -> Step {
+		if let Some(i) = v["b"].as_u64() {
+			Step::Block(i as usize)
+		} else if let Some(i) = v["h"].as_u64() {
+			Step::Header(i as usize)
+		} else {
+			Step::HeaderBatch(v["hb"].as_array().map(|a| a.iter().map(|x| x.as_u64().unwrap_or(0) as usize).collect()).unwrap_or_default())
+		}
+	}
+}
+
 #[derive(Clone, Debug)]
 struct Order {
 	class: String,
@@ -246,9 +265,6 @@ struct Tree {
 	orders: Vec<Order>,
 	exhaustive: bool,
 	multi_branch: bool,
-	win_snap: std::sync::Mutex<Option<Snap>>,
-	first: std::sync::Mutex<Option<(Snap, String)>>,
-	failed: std::sync::atomic::AtomicBool,
 }
 
 struct Stats {
@@ -421,15 +437,192 @@ fn short_err(e: &grin_chain::Error) -> String {
 	s.split(|c| c == '(' || c == '{' || c == ' ').next().unwrap_or("").to_string()
 }
 
+fn build_tree(run: &Run, i: u64, n_small: u64, n_big: u64, orders_per_big: usize) -> Tree {
+	let mut p = Prng::new(run.seed.wrapping_mul(0xA24B_AED4).wrapping_add(i));
+	let mut cfg = TreeCfg::small();
+	cfg.n_invalid = 0;
+	let small = i < n_small;
+	let real = i >= n_small + n_big;
+	if small {
+		// 4-5 blocks in total with a fork
+		cfg.trunk = 1 + p.usize_below(2);
+		cfg.branches = 1 + p.usize_below(2);
+		cfg.max_depth = 2;
+		cfg.tx_per_mille = 0;
+	} else {
+		cfg.trunk = 2 + p.usize_below(4);
+		cfg.branches = 1 + p.usize_below(3);
+		cfg.max_depth = 1 + p.usize_below(5);
+		cfg.tx_per_mille = 300;
+	}
+	cfg.real_pow = real;
+	let mut h = gen_history(p.next_u64(), &cfg);
+	if small {
+		while h.blocks.len() > 5 {
+			// creation order is parent-first: the last block is always a leaf
+			h.blocks.pop();
+		}
+	}
+	let sig = shape_sig(&h);
+	let all: HashSet<Hash> = h.blocks.iter().map(|b| b.hash).collect();
+	let (winner, unique) = h.ledger.best_tip(&all);
+	let (orders, exhaustive) = make_orders(&h, &mut p, orders_per_big, 5);
+	let multi_branch = h
+		.blocks
+		.iter()
+		.any(|b| h.blocks.iter().filter(|c| c.parent == b.parent).count() > 1);
+	Tree {
+		idx: i,
+		genesis: h.genesis.clone(),
+		blocks: h.blocks.clone(),
+		commits: h.all_commits(),
+		opts: h.opts(),
+		sig,
+		real,
+		winner,
+		unique,
+		orders,
+		exhaustive,
+		multi_branch,
+		hist: std::sync::Mutex::new(h),
+	}
+}
+
+fn tree_from_file(dir: &str, i: u64) -> Tree {
+	let path = format!("{}/t{}.json", dir, i);
+	let txt = std::fs::read_to_string(&path).expect("tree file");
+	let v: serde_json::Value = serde_json::from_str(&txt).expect("tree json");
+	let h = vcommon::forktree::hist_from_json(&v["hist"]);
+	let orders: Vec<Order> = v["orders"]
+		.as_array()
+		.unwrap()
+		.iter()
+		.map(|o| Order {
+			class: o["class"].as_str().unwrap_or("").to_string(),
+			steps: o["steps"].as_array().unwrap().iter().map(Step::from_json).collect(),
+		})
+		.collect();
+	let all: HashSet<Hash> = h.blocks.iter().map(|b| b.hash).collect();
+	let (winner, unique) = h.ledger.best_tip(&all);
+	let multi_branch = h
+		.blocks
+		.iter()
+		.any(|b| h.blocks.iter().filter(|c| c.parent == b.parent).count() > 1);
+	Tree {
+		idx: i,
+		genesis: h.genesis.clone(),
+		blocks: h.blocks.clone(),
+		commits: h.all_commits(),
+		opts: h.opts(),
+		sig: shape_sig(&h),
+		real: h.real_pow,
+		winner,
+		unique,
+		orders,
+		exhaustive: v["exhaustive"].as_bool().unwrap_or(false),
+		multi_branch,
+		hist: std::sync::Mutex::new(h),
+	}
+}
+
+fn worker(run: &Run, shard: usize, nshards: usize, deadline: f64) {
+	init_thread(true);
+	verif_hooks::events_enable(true);
+	let dir = run.arg_value("--dir").expect("--dir");
+	let index: Vec<u64> = serde_json::from_str(&std::fs::read_to_string(format!("{}/index.json", dir)).unwrap()).unwrap();
+	let sc = Scratch::new("c03w");
+	let mut digests: Vec<serde_json::Value> = vec![];
+	let mut tree_info: Vec<serde_json::Value> = vec![];
+	let mut stats = Stats { deliveries: 0, head_moves: 0, orphan_results: 0, orders_run: 0, reorg_status: 0 };
+	let mut class_counts: HashMap<String, u64> = HashMap::new();
+	let mut cached: Option<Tree> = None;
+	let mut j: usize = 0;
+	for (ti, &n_orders) in index.iter().enumerate() {
+		let ti = ti as u64;
+		for k in -1i64..(n_orders as i64) {
+			let mine = j % nshards == shard;
+			j += 1;
+			if !mine {
+				continue;
+			}
+			if run.elapsed_s() > deadline {
+				run.count("jobs_skipped_by_deadline", 1);
+				continue;
+			}
+			if cached.as_ref().map(|t| t.idx) != Some(ti) {
+				cached = Some(tree_from_file(&dir, ti));
+			}
+			let t = cached.as_ref().unwrap();
+			if k < 0 {
+				// the reference node fed the winning chain only, and the tree's facts
+				let anc = t.hist.lock().unwrap().ledger.ancestry(&t.winner);
+				let dirw = sc.sub(&format!("t{}-win", t.idx));
+				let adapter = Arc::new(RecordingAdapter::default());
+				let chain = open_chain_with(&dirw, &t.genesis, adapter, false).unwrap();
+				for x in anc.iter().skip(1) {
+					let b = t.blocks.iter().find(|b| b.hash == *x).unwrap();
+					let _ = chain.process_block(b.block.clone(), t.opts);
+				}
+				let _ = verif_hooks::events_take_current_thread();
+				if let Ok(sn) = snapshot(&chain, &t.commits) {
+					digests.push(json!({"tree": t.idx, "order": -1, "class": "winning_chain_only", "d": sn.body_digest()}));
+				}
+				drop(chain);
+				let _ = std::fs::remove_dir_all(&dirw);
+				tree_info.push(json!({
+					"tree": t.idx, "sig": t.sig, "real_pow": t.real, "unique_max": t.unique, "blocks": t.blocks.len(),
+					"orders": t.orders.len(), "exhaustive": t.exhaustive,
+					"example_order": t.orders.get(1).map(|o| json!({"class": o.class, "steps": format!("{:?}", o.steps)})),
+					"block_tds": t.blocks.iter().map(|b| json!([b.block.header.height, b.block.header.total_difficulty().to_num()])).collect::<Vec<_>>(),
+				}));
+				continue;
+			}
+			let k = k as usize;
+			let o = &t.orders[k];
+			let dir_o = sc.sub(&format!("t{}-o{}", t.idx, k));
+			let rp = json!({"tree_index": t.idx, "shape": t.sig, "real_pow": t.real, "order_index": k,
+				"order_class": o.class, "steps": format!("{:?}", o.steps)});
+			let snap = run_order(run, t, o, &dir_o, &mut stats, &rp);
+			let _ = std::fs::remove_dir_all(&dir_o);
+			run.eval(&format!("{};{}", t.sig, o.class), t.multi_branch);
+			*class_counts.entry(o.class.clone()).or_insert(0) += 1;
+			if let Some(sn) = snap {
+				if t.unique && sn.head.0 != t.winner {
+					run.violation(
+						&format!("C03;order={};final_head_not_unique_max", o.class),
+						&format!("final head {} != unique max-work block {}", sn.head.0, t.winner),
+						rp.clone(),
+					);
+				}
+				digests.push(json!({"tree": t.idx, "order": k, "class": o.class, "d": sn.body_digest()}));
+			}
+		}
+	}
+	run.count("deliveries", stats.deliveries);
+	run.count("head_move_events_checked", stats.head_moves);
+	run.count("orphan_pool_deliveries", stats.orphan_results);
+	run.count("orders_completed", stats.orders_run);
+	run.count("reorg_status_callbacks", stats.reorg_status);
+	for (k, v) in class_counts {
+		run.count(&format!("orders.{}", k), v);
+	}
+	run.extra("digests", json!(digests));
+	run.extra("trees", json!(tree_info));
+	drop(sc);
+}
+
 fn main() {
 	let run = Run::from_env("C03", "exploration");
 	init_globals(true);
-	verif_hooks::events_enable(true);
 	let n_small: u64 = run.tier.pick(6, 40); // exhaustive permutation trees
 	let n_big: u64 = run.tier.pick(10, 90);
 	let n_real: u64 = run.tier.pick(3, 20);
 	let orders_per_big: usize = run.tier.pick(24, 60);
-	let sc = Scratch::new("c03");
+	let deadline = run.tier.pick(100.0, 800.0);
+	if let Some((i, n)) = run.worker_shard() {
+		worker(&run, i, n, deadline);
+		run.finish_worker();
+	}
 	run.set_rule(
 		"tree = random fork tree of valid blocks (SKIP_POW with pairwise distinct total difficulties so every subset has a unique \
 		 maximum, or real PoW where difficulty follows the retarget through random timestamps; ties are then excluded from the \
@@ -438,23 +631,16 @@ fn main() {
 		 orders of classes parent-first, single headers then shuffled bodies, header batches then shuffled bodies, children \
 		 strictly before parents (orphan pool), duplicates, headers interleaved with bodies. Per delivery: HeadMove events \
 		 (strictly more work, target stored+accepted), head == reference max-work connected block, observed work monotone; per \
-		 tree: final snapshots equal across all orders and equal to a node fed the winning chain only and to the replayed \
-		 reference. Distinct = (tree shape, order class); non-trivial = tree has ≥2 branches.",
+		 order: final state == replayed reference; per tree: final best-chain state digests equal across all orders and equal to a \
+		 node fed the winning chain only. Distinct = (tree shape, order class); non-trivial = tree has ≥2 branches. \
+		 16 worker processes (block validation is serialised inside one process by the global secp lock).",
 	);
 	run.assume("orphan eviction by age (300 s) and beyond-capacity orphan floods are not exercised");
+	// phase 1 (threads): generate the trees and their delivery orders, store them for the workers
+	let sc = Scratch::new("c03");
 	let total = n_small + n_big + n_real;
 	let next = AtomicU64::new(0);
-	let deliveries = AtomicU64::new(0);
-	let head_moves = AtomicU64::new(0);
-	let orphans = AtomicU64::new(0);
-	let orders_run = AtomicU64::new(0);
-	let reorg_status = AtomicU64::new(0);
-	let exhaustive_trees = AtomicU64::new(0);
-	let ties = AtomicU64::new(0);
-	let class_counts = std::sync::Mutex::new(HashMap::<String, u64>::new());
-	let deadline = run.tier.pick(140.0, 800.0);
-	// phase 1: generate the trees in parallel
-	let trees = std::sync::Mutex::new(Vec::<Arc<Tree>>::new());
+	let counts = std::sync::Mutex::new(vec![0u64; total as usize]);
 	std::thread::scope(|s| {
 		for _ in 0..16 {
 			s.spawn(|| {
@@ -464,205 +650,90 @@ fn main() {
 					if i >= total {
 						break;
 					}
-					let mut p = Prng::new(run.seed.wrapping_mul(0xA24B_AED4).wrapping_add(i));
-					let mut cfg = TreeCfg::small();
-					cfg.n_invalid = 0;
-					let small = i < n_small;
-					let real = i >= n_small + n_big;
-					if small {
-						cfg.trunk = 1 + p.usize_below(2);
-						cfg.branches = 1 + p.usize_below(2);
-						cfg.max_depth = 2;
-						cfg.tx_per_mille = 0;
-					} else {
-						cfg.trunk = 2 + p.usize_below(4);
-						cfg.branches = 1 + p.usize_below(3);
-						cfg.max_depth = 1 + p.usize_below(5);
-						cfg.tx_per_mille = 300;
-					}
-					cfg.real_pow = real;
-					let mut h = gen_history(p.next_u64(), &cfg);
-					if small {
-						while h.blocks.len() > 5 {
-							h.blocks.pop();
-						}
-					}
-					let sig = shape_sig(&h);
-					let all: HashSet<Hash> = h.blocks.iter().map(|b| b.hash).collect();
-					let (winner, unique) = h.ledger.best_tip(&all);
-					if !unique {
-						ties.fetch_add(1, Ordering::SeqCst);
-					}
-					let (orders, exhaustive) = make_orders(&h, &mut p, orders_per_big, 5);
-					if exhaustive {
-						exhaustive_trees.fetch_add(1, Ordering::SeqCst);
-					}
-					let multi_branch = h.blocks.iter().any(|b| h.blocks.iter().filter(|c| c.parent == b.parent).count() > 1);
-					let t = Tree {
-						idx: i,
-						genesis: h.genesis.clone(),
-						blocks: h.blocks.clone(),
-						commits: h.all_commits(),
-						opts: h.opts(),
-						sig,
-						real,
-						winner,
-						unique,
-						orders,
-						exhaustive,
-						multi_branch,
-						win_snap: std::sync::Mutex::new(None),
-						first: std::sync::Mutex::new(None),
-						failed: std::sync::atomic::AtomicBool::new(false),
-						hist: std::sync::Mutex::new(h),
-					};
-					trees.lock().unwrap().push(Arc::new(t));
+					let t = build_tree(&run, i, n_small, n_big, orders_per_big);
+					let h = t.hist.lock().unwrap();
+					let v = json!({
+						"hist": vcommon::forktree::hist_to_json(&h),
+						"exhaustive": t.exhaustive,
+						"orders": t.orders.iter().map(|o| json!({"class": o.class, "steps": o.steps.iter().map(|s| s.to_json()).collect::<Vec<_>>()})).collect::<Vec<_>>(),
+					});
+					std::fs::write(format!("{}/t{}.json", sc.path.display(), i), serde_json::to_string(&v).unwrap()).unwrap();
+					counts.lock().unwrap()[i as usize] = t.orders.len() as u64;
 				}
 			});
 		}
 	});
-	let mut trees = trees.into_inner().unwrap();
-	trees.sort_by_key(|t| t.idx);
-	// reference node per tree: the winning chain only
-	let mut jobs: Vec<(Arc<Tree>, isize)> = vec![];
-	for t in &trees {
-		jobs.push((t.clone(), -1));
-	}
-	for t in &trees {
-		for k in 0..t.orders.len() {
-			jobs.push((t.clone(), k as isize));
+	std::fs::write(format!("{}/index.json", sc.path.display()), serde_json::to_string(&*counts.lock().unwrap()).unwrap()).unwrap();
+	run.count("tree_generation_seconds", run.elapsed_s() as u64);
+	let results = run.spawn_workers(16, &["--dir".to_string(), sc.path.display().to_string()], run.tier.pick(400, 2400));
+	drop(sc);
+	// cross-order comparison per tree (digests come from different worker processes)
+	let mut by_tree: HashMap<u64, Vec<serde_json::Value>> = HashMap::new();
+	let mut trees: HashMap<u64, serde_json::Value> = HashMap::new();
+	for r in &results {
+		if let Some(a) = r["extras"]["digests"].as_array() {
+			for d in a {
+				by_tree.entry(d["tree"].as_u64().unwrap_or(0)).or_default().push(d.clone());
+			}
+		}
+		if let Some(a) = r["extras"]["trees"].as_array() {
+			for t in a {
+				trees.insert(t["tree"].as_u64().unwrap_or(0), t.clone());
+			}
 		}
 	}
-	let jobs = Arc::new(jobs);
-	let nextj = AtomicU64::new(0);
-	// phase 2a: winning-chain-only nodes; 2b: all orders
-	for phase in 0..2 {
-		std::thread::scope(|s| {
-			for _ in 0..16 {
-				s.spawn(|| {
-					init_thread(true);
-					loop {
-						let j = nextj.fetch_add(1, Ordering::SeqCst) as usize;
-						let lim = if phase == 0 { trees.len() } else { jobs.len() };
-						if j >= lim {
-							if phase == 0 {
-								// leave the counter at the first order job
-								nextj.store(trees.len() as u64, Ordering::SeqCst);
-							}
-							break;
-						}
-						let (t, k) = &jobs[j];
-						if *k < 0 {
-							let anc = t.hist.lock().unwrap().ledger.ancestry(&t.winner);
-							let dirw = sc.sub(&format!("t{}-win", t.idx));
-							let adapter = Arc::new(RecordingAdapter::default());
-							let chain = open_chain_with(&dirw, &t.genesis, adapter, false).unwrap();
-							for x in anc.iter().skip(1) {
-								let b = t.blocks.iter().find(|b| b.hash == *x).unwrap();
-								let _ = chain.process_block(b.block.clone(), t.opts);
-							}
-							let _ = verif_hooks::events_take_current_thread();
-							*t.win_snap.lock().unwrap() = snapshot(&chain, &t.commits).ok();
-							drop(chain);
-							let _ = std::fs::remove_dir_all(&dirw);
-							continue;
-						}
-						if run.elapsed_s() > deadline || t.failed.load(Ordering::SeqCst) {
-							continue;
-						}
-						let k = *k as usize;
-						let o = &t.orders[k];
-						let dir = sc.sub(&format!("t{}-o{}", t.idx, k));
-						let mut rp = json!({"tree_index": t.idx, "shape": t.sig, "real_pow": t.real});
-						rp["order_class"] = json!(o.class);
-						rp["steps"] = json!(format!("{:?}", o.steps));
-						let mut stats = Stats { deliveries: 0, head_moves: 0, orphan_results: 0, orders_run: 0, reorg_status: 0 };
-						let snap = run_order(&run, t, o, &dir, &mut stats, &rp);
-						let _ = std::fs::remove_dir_all(&dir);
-						run.eval(&format!("{};{}", t.sig, o.class), t.multi_branch);
-						*class_counts.lock().unwrap().entry(o.class.clone()).or_insert(0) += 1;
-						deliveries.fetch_add(stats.deliveries, Ordering::SeqCst);
-						head_moves.fetch_add(stats.head_moves, Ordering::SeqCst);
-						orphans.fetch_add(stats.orphan_results, Ordering::SeqCst);
-						orders_run.fetch_add(stats.orders_run, Ordering::SeqCst);
-						reorg_status.fetch_add(stats.reorg_status, Ordering::SeqCst);
-						let snap = match snap {
-							Some(s) => s,
-							None => {
-								t.failed.store(true, Ordering::SeqCst);
-								continue;
-							}
-						};
-						if !t.unique {
-							continue;
-						}
-						if snap.head.0 != t.winner {
-							run.violation(
-								&format!("C03;order={};final_head_not_unique_max", o.class),
-								&format!("final head {} != unique max-work block {}", snap.head.0, t.winner),
-								rp.clone(),
-							);
-							t.failed.store(true, Ordering::SeqCst);
-							continue;
-						}
-						if let Some(ws) = &*t.win_snap.lock().unwrap() {
-							// blocks of losing forks are stored by the full node only: compare best-chain state
-							let mut a = snap.clone();
-							let mut b = ws.clone();
-							a.tail = None;
-							b.tail = None;
-							if let Some(d) = diff(&a, &b, true) {
-								run.violation(
-									&format!("C03;order={};state_differs_from_winning_chain_only;{}", o.class, d.split(' ').next().unwrap_or("")),
-									&format!("vs node fed the winning chain only: {}", d),
-									rp.clone(),
-								);
-								t.failed.store(true, Ordering::SeqCst);
-								continue;
-							}
-						}
-						let mut first = t.first.lock().unwrap();
-						match &*first {
-							None => *first = Some((snap, o.class.clone())),
-							Some((f, fc)) => {
-								if let Some(d) = diff(f, &snap, true) {
-									run.violation(
-										&format!("C03;orders={}|{};final_state_differs;{}", fc, o.class, d.split(' ').next().unwrap_or("")),
-										&format!("two delivery orders of the same block set end differently: {}", d),
-										rp.clone(),
-									);
-									t.failed.store(true, Ordering::SeqCst);
-								}
-							}
-						}
-					}
-				});
+	let mut exhaustive_trees = 0u64;
+	let mut ties = 0u64;
+	let mut compared = 0u64;
+	let mut keys: Vec<u64> = trees.keys().cloned().collect();
+	keys.sort();
+	for ti in keys {
+		let t = &trees[&ti];
+		if t["exhaustive"].as_bool() == Some(true) {
+			exhaustive_trees += 1;
+		}
+		if t["unique_max"].as_bool() != Some(true) {
+			ties += 1;
+			continue;
+		}
+		let ds = match by_tree.get(&ti) {
+			Some(d) => d,
+			None => continue,
+		};
+		let first = &ds[0];
+		for d in &ds[1..] {
+			compared += 1;
+			if d["d"] != first["d"] {
+				let comp = first["d"]
+					.as_array()
+					.and_then(|fa| {
+						d["d"].as_array().and_then(|da| {
+							fa.iter().zip(da.iter()).find(|(x, y)| x != y).map(|(x, _)| x[0].as_str().unwrap_or("?").to_string())
+						})
+					})
+					.unwrap_or_default();
+				run.violation(
+					&format!("C03;orders={}|{};final_state_differs;{}", first["class"].as_str().unwrap_or(""), d["class"].as_str().unwrap_or(""), comp),
+					&format!("tree {}: orders {} and {} of the same block set end with different {}", ti, first["order"], d["order"], comp),
+					json!({"tree": t, "a": first, "b": d}),
+				);
+				break;
 			}
-		});
+		}
 	}
-	for t in trees.iter().take(2).chain(trees.iter().filter(|t| t.real).take(1)) {
-		run.sample(json!({
-			"tree": t.sig, "real_pow": t.real, "blocks": t.blocks.len(), "orders": t.orders.len(),
-			"exhaustive_permutations": t.exhaustive,
-			"example_order": t.orders.get(1).map(|o| json!({"class": o.class, "steps": format!("{:?}", o.steps)})),
-			"block_tds": t.blocks.iter().map(|b| json!([b.block.header.height, b.block.header.total_difficulty().to_num()])).collect::<Vec<_>>(),
-		}));
+	for ti in [0u64, 1, n_small + n_big] {
+		if let Some(t) = trees.get(&ti) {
+			run.sample(t.clone());
+		}
 	}
-	run.count("deliveries", deliveries.load(Ordering::SeqCst));
-	run.count("head_move_events_checked", head_moves.load(Ordering::SeqCst));
-	run.count("orphan_pool_deliveries", orphans.load(Ordering::SeqCst));
-	run.count("orders_completed", orders_run.load(Ordering::SeqCst));
-	run.count("reorg_status_callbacks", reorg_status.load(Ordering::SeqCst));
-	run.count("trees_with_exhaustive_permutations", exhaustive_trees.load(Ordering::SeqCst));
-	run.count("trees_with_ties_excluded_from_order_clause", ties.load(Ordering::SeqCst));
-	for (k, v) in class_counts.lock().unwrap().iter() {
-		run.count(&format!("orders.{}", k), *v);
-	}
-	run.require("orders_completed", orders_run.load(Ordering::SeqCst), run.tier.pick(300, 3000));
-	run.require("head_move_events_checked", head_moves.load(Ordering::SeqCst), run.tier.pick(1000, 10000));
-	run.require("orphan_pool_deliveries", orphans.load(Ordering::SeqCst), run.tier.pick(100, 1000));
-	run.require("reorg_status_callbacks", reorg_status.load(Ordering::SeqCst), run.tier.pick(50, 500));
-	run.require("trees_with_exhaustive_permutations", exhaustive_trees.load(Ordering::SeqCst), run.tier.pick(3, 20));
-	drop(sc);
+	run.count("final_state_digest_comparisons", compared);
+	run.count("trees_with_exhaustive_permutations", exhaustive_trees);
+	run.count("trees_with_ties_excluded_from_order_clause", ties);
+	run.require("orders_completed", run.counter("orders_completed"), run.tier.pick(300, 3000));
+	run.require("head_move_events_checked", run.counter("head_move_events_checked"), run.tier.pick(1000, 10000));
+	run.require("orphan_pool_deliveries", run.counter("orphan_pool_deliveries"), run.tier.pick(100, 1000));
+	run.require("reorg_status_callbacks", run.counter("reorg_status_callbacks"), run.tier.pick(50, 500));
+	run.require("final_state_digest_comparisons", compared, run.tier.pick(300, 3000));
+	run.require("trees_with_exhaustive_permutations", exhaustive_trees, run.tier.pick(3, 20));
 	run.finish();
 }
